@@ -121,7 +121,7 @@ func (c *c18Call) describe() map[string]any {
 	m := map[string]any{
 		"id": c.id, "api": map[bool]string{false: "sync", true: "async"}[c.async], "kind": c18KindName[c.kind], "pri": c.pri,
 		"fwd": c.fwd, "timeout_ms": c.timeout.Milliseconds(), "cancel": c18CancelName[c.cancelMode],
-		"srv_mode": [...]string{"echo", "drop", "slow", "kill"}[c.srvMode], "returns": c.returns.Load(),
+		"srv_mode": [...]string{"echo", "drop", "slow", "gate", "kill"}[c.srvMode], "returns": c.returns.Load(),
 		"srv_received": c.srvRecv.Load(), "srv_answered": c.srvAnswered.Load(), "srv_stream": c.srvStream.Load(),
 	}
 	if c.err != nil {
@@ -179,11 +179,12 @@ type c18Scn struct {
 	CloseOnDown bool   `json:"close_on_down"` // pool closed when the server goes down: connection re-created meanwhile
 	MidPct      int    `json:"mid_pct"`       // calls with a time-out of 0.1x..2x the dial time-out
 	CancelMaxUs int    `json:"cancel_max_us"` // upper bound of the delay of delayed cancellations
+	GateAll     bool   `json:"gate_all"`      // the server holds every answer while the gate is closed; the scenario toggles it
 }
 
 var c18Shapes = []string{"clean", "timeouts-cancels", "streamkill", "restart", "restart-fwd", "streamkill-fwd",
 	"closeaddr", "closeaddr-async", "close-midway", "limit", "unary", "tiny-batch", "overload-wait", "mixed", "many-callers", "stale-ids",
-	"conn-blackhole", "conn-closeaccept", "conn-latestart", "conn-neverup", "conn-restart-recreate"}
+	"conn-blackhole", "conn-closeaccept", "conn-latestart", "conn-neverup", "conn-restart-recreate", "limit-queue"}
 
 func c18GenScn(rng *rand.Rand, idx int, shape string) *c18Scn {
 	pick := func(v ...int) int { return v[rng.Intn(len(v))] }
@@ -265,6 +266,23 @@ func c18GenScn(rng *rand.Rand, idx int, shape string) *c18Scn {
 		s.DialMs = 1500
 	case "directed-stale-epoch-fwd", "directed-stale-epoch-direct":
 		s.MaxBatch, s.Conns, s.Fwd, s.HoldPct, s.ShufflePct, s.Callers = 128, 1, true, 0, 0, 1
+	case "directed-limit-heap":
+		s.MaxBatch, s.Conns, s.Fwd, s.HoldPct, s.ShufflePct, s.Callers = 128, 1, false, 0, 0, 1
+		s.Limit, s.DialMs, s.LongTimeout, s.StalePct = 2, 300, time.Second, 0
+	case "limit-queue":
+		// the request limit is exhausted by requests the store keeps open (gate closed), many more callers with mixed
+		// priorities wait in the client's priority queue, a random part of them is cancelled / times out in bursts
+		// while waiting, then the gate opens; the common tail keeps requests arriving until the queue has drained
+		// (queued requests only move when a request arrives)
+		s.Limit = int64(pick(2, 3, 4, 8))
+		s.GateAll, s.NoDrop = true, true
+		s.MaxBatch, s.Conns = 128, uint(pick(1, 2))
+		s.Callers = pick(32, 64, 96)
+		total = 300 + rng.Intn(150)
+		s.AsyncPct, s.NoDeadlinePct = 50, 60
+		s.ShortPct, s.CancelPct, s.CancelMaxUs = 15, 30, 60000
+		s.HighPriPct = 8
+		s.LongTimeout, s.DialMs = 600*time.Millisecond, 300
 	case "directed-close-queue", "directed-close-queue-2":
 		s.MaxBatch, s.Conns, s.Fwd, s.HoldPct, s.ShufflePct, s.Callers = 128, uint(pick(1, 2)), false, 0, 0, 1
 		s.DialMs = 500
@@ -339,6 +357,7 @@ type c18Run struct {
 	ccIDs  sync.Map // *grpc.ClientConn -> id (keeps the conn alive so that ids are never reused)
 	ccNext atomic.Int64
 
+	gateOpen    atomic.Bool  // gated responses are released while true
 	frontActive atomic.Int32 // > 0 while there is no gRPC server on the address (hostile front / down)
 	dialTO      time.Duration
 
@@ -698,7 +717,7 @@ func c18RunScenario(t *testing.T, r *vrep.Report, scn *c18Scn, factor int) []str
 	rng := rand.New(rand.NewSource(scn.Seed))
 	run.srv = c18NewServer(run, c18SrvPlan{killProb: scn.KillProb, killMin: scn.KillMin, killMax: scn.KillMax,
 		restartAt: scn.RestartAt, downMs: scn.DownMs, holdPct: scn.HoldPct, shufflePct: scn.ShufflePct,
-		loadPct: scn.LoadPct, feedbackPct: scn.FeedbackPct, stalePct: scn.StalePct,
+		loadPct: scn.LoadPct, feedbackPct: scn.FeedbackPct, stalePct: scn.StalePct, gateAll: scn.GateAll,
 		frontMode: c18FrontMode(scn.Front), frontFor: time.Duration(scn.FrontMs) * time.Millisecond,
 		downMode: c18FrontMode(scn.DownMode), closeOnDown: scn.CloseOnDown}, rand.New(rand.NewSource(rng.Int63())))
 	run.dialTO = dialTimeout
@@ -767,7 +786,32 @@ func c18RunScenario(t *testing.T, r *vrep.Report, scn *c18Scn, factor int) []str
 			}
 		}(i)
 	}
-	run.startResolvers(&wg, c18Directed[scn.Shape] != nil)
+	run.gateOpen.Store(!scn.GateAll)
+	gateStop := make(chan struct{})
+	gateDone := make(chan struct{})
+	go func() {
+		defer close(gateDone)
+		if !scn.GateAll {
+			return
+		}
+		grng := rand.New(rand.NewSource(scn.Seed ^ 0x6a7e))
+		for {
+			run.gateOpen.Store(false)
+			select {
+			case <-gateStop:
+				return
+			case <-time.After(time.Duration(15+grng.Intn(45)) * time.Millisecond):
+			}
+			run.gateOpen.Store(true)
+			run.count("gate_openings", 1)
+			select {
+			case <-gateStop:
+				return
+			case <-time.After(time.Duration(5+grng.Intn(15)) * time.Millisecond):
+			}
+		}
+	}()
+	run.startResolvers(&wg, c18Directed[scn.Shape] != nil || scn.GateAll)
 	joined := make(chan struct{})
 	go func() { wg.Wait(); close(joined) }()
 	// Callers issue their sync calls one after the other and each call is bounded by its own time-out, so there is no
@@ -799,6 +843,12 @@ joinLoop:
 		}
 	}
 	run.bg.Wait()
+	close(gateStop)
+	<-gateDone
+	if scn.GateAll {
+		run.gateOpen.Store(true)
+		run.tickDrain(600)
+	}
 
 	// ---- recovery probes: drive every (conn, forwarded host) after the faults; they are ordinary monitored calls
 	if neverUp := scn.Front != "" && scn.FrontMs == 0; !run.closed.Load() && !neverUp {
@@ -1076,7 +1126,7 @@ func TestVerifC18BatchMultiplex(t *testing.T) {
 	rng := vrep.Rand("c18-scenarios")
 	reps := vrep.Pick(2, 8)
 	var scns []*c18Scn
-	for _, sh := range []string{"directed-stale-epoch-fwd", "directed-stale-epoch-direct", "directed-close-queue", "directed-close-queue-2"} {
+	for _, sh := range []string{"directed-stale-epoch-fwd", "directed-stale-epoch-direct", "directed-close-queue", "directed-close-queue-2", "directed-limit-heap"} {
 		scns = append(scns, c18GenScn(rng, len(scns), sh))
 	}
 	for rep := 0; rep < reps; rep++ {
@@ -1170,6 +1220,12 @@ func TestVerifC18BatchMultiplex(t *testing.T) {
 	r.Floor("front_refuse", 2)
 	r.Floor("front_never_up", 1)
 	r.Floor("closeaddr_while_down", 2)
+	r.Floor("limitheap_rounds", 12)
+	r.Floor("limitheap_rounds_drained", 10)
+	r.Floor("limitheap_cancelled_in_queue", 24)
+	r.Floor("srv_gated", 150)
+	r.Floor("gate_openings", 5)
+	r.Floor("drain_ticks", 10)
 	r.Floor("closeq_rounds", 16)
 	r.Floor("closeq_rounds_queue_intact", 10)
 	r.Floor("closeq_rounds_async_behind_sync", 8)
@@ -1214,6 +1270,7 @@ func c18Common(a, b []string) []string {
 var c18Directed = map[string]func(run *c18Run){
 	"directed-stale-epoch-fwd":    c18ScriptStaleEpoch("", "fwd-a:20160"),
 	"directed-stale-epoch-direct": c18ScriptStaleEpoch("fwd-a:20160", ""),
+	"directed-limit-heap":         c18ScriptLimitHeap,
 	"directed-close-queue":        c18ScriptCloseQueue,
 	"directed-close-queue-2":      c18ScriptCloseQueue,
 }
@@ -1435,5 +1492,175 @@ func c18ScriptCloseQueue(run *c18Run) {
 		failpoint.Disable(fp)
 		wg.Wait() // the sync callers come back by themselves; the async ones are judged by the common tail
 		time.Sleep(45 * time.Millisecond)
+	}
+}
+
+// tickDrain keeps requests arriving until every call issued so far has returned (at most n ticks).  With a request
+// limit the send loop only looks at its priority queue when a request arrives, so a quiet client would leave queued
+// requests waiting although the store has capacity again (documented behaviour, not judged here).
+func (run *c18Run) tickDrain(n int) bool {
+	for i := 0; i < n; i++ {
+		run.mu.Lock()
+		pending := 0
+		for _, c := range run.all {
+			if c.returns.Load() == 0 && !c.flagged.Load() {
+				pending++
+			}
+		}
+		k := len(run.all)
+		run.mu.Unlock()
+		if pending == 0 {
+			return true
+		}
+		// async: a tick must not wait for its own turn in the queue (it has the lowest priority)
+		c := &c18Call{caller: -9, seq: k, done: make(chan struct{}), kind: c18KindGet, async: true, timeout: 100 * time.Millisecond, probe: true,
+			id: fmt.Sprintf("v%d.%d/tick/q%d", run.factor, run.scn.Idx, k)}
+		run.issue(c)
+		run.count("drain_ticks", 1)
+		time.Sleep(500 * time.Microsecond)
+	}
+	return false
+}
+
+// c18ScriptLimitHeap replays exact arrival orders around heap shapes of the send loop's priority queue: the request
+// limit (2) is exhausted by two requests the store keeps open, 5-7 requests with different normal priorities queue up
+// one by one (each arrival is one send-loop iteration), 2-3 of them are cancelled between two iterations, one more
+// arrival lets the loop clean its queue, then the gate opens and arrivals keep coming until the queue has drained.
+// Every live request must be served (or failed): the deadline-less async ones are the witnesses.
+func c18ScriptLimitHeap(run *c18Run) {
+	rng := rand.New(rand.NewSource(run.scn.Seed ^ 0x4ea9))
+	type ent struct {
+		pri    uint64
+		cancel bool
+	}
+	fixed := [][]ent{
+		{{9, false}, {2, true}, {8, false}, {1, true}, {1, false}, {7, false}},
+		{{8, false}, {3, true}, {7, false}, {2, true}, {2, false}, {6, false}},
+		{{9, false}, {4, true}, {8, false}, {3, true}, {2, true}, {1, false}, {7, false}},
+		{{5, false}, {2, true}, {4, false}, {1, true}, {3, false}},
+	}
+	queueLen := func() int {
+		run.rpc.RLock()
+		defer run.rpc.RUnlock()
+		if p := run.rpc.connPools[run.srv.addr]; p != nil && p.batchConn != nil {
+			return len(p.batchConn.batchCommandsCh)
+		}
+		return -1
+	}
+	consumed := func() {
+		for end := time.Now().Add(20 * time.Millisecond); time.Now().Before(end) && queueLen() > 0; {
+			time.Sleep(100 * time.Microsecond)
+		}
+		time.Sleep(400 * time.Microsecond) // let the loop finish the iteration and block on the queue again
+	}
+	seq := 0
+	mk := func(async bool, pri uint64, timeout time.Duration, srvMode int) *c18Call {
+		c := &c18Call{caller: -2, seq: seq, done: make(chan struct{}), kind: seq % c18NPlainKinds, async: async, pri: pri, timeout: timeout, srvMode: srvMode,
+			id: fmt.Sprintf("v%d.%d/heap/q%d", run.factor, run.scn.Idx, seq)}
+		seq++
+		return c
+	}
+	var wg sync.WaitGroup
+	launch := func(c *c18Call) {
+		if c.async {
+			run.issue(c)
+			return
+		}
+		wg.Add(1)
+		go func() {
+			defer wg.Done()
+			run.issue(c)
+		}()
+	}
+	warm := mk(false, 0, run.scn.LongTimeout, c18SrvEcho)
+	run.issue(warm)
+	rounds := vrep.Pick(16, 60)
+	for round := 0; round < rounds; round++ {
+		var order []ent
+		if round < len(fixed) {
+			order = fixed[round]
+		} else {
+			n := 5 + rng.Intn(3)
+			for i := 0; i < n; i++ {
+				order = append(order, ent{pri: uint64(1 + rng.Intn(9))})
+			}
+			for k, want := 0, 2+rng.Intn(2); k < want; {
+				if i := rng.Intn(n - 1); !order[i].cancel { // the last arrival stays live
+					order[i].cancel = true
+					k++
+				}
+			}
+		}
+		run.gateOpen.Store(false)
+		holders := []*c18Call{mk(true, 0, 3*time.Second, c18SrvGate), mk(true, 0, 3*time.Second, c18SrvGate)}
+		for _, h := range holders {
+			launch(h)
+		}
+		for end := time.Now().Add(300 * time.Millisecond); time.Now().Before(end) && (holders[0].srvRecv.Load() == 0 || holders[1].srvRecv.Load() == 0); {
+			time.Sleep(200 * time.Microsecond)
+		}
+		if holders[0].srvRecv.Load() == 0 || holders[1].srvRecv.Load() == 0 {
+			run.count("limitheap_rounds_holders_not_placed", 1)
+			run.gateOpen.Store(true)
+			run.tickDrain(200)
+			continue
+		}
+		// The cancellations happen before the last arrival: that arrival is the send-loop iteration after which the
+		// queue is cleaned, with the last (live) entry at the end of the heap.  In some random rounds they happen
+		// after it instead and one more low-priority arrival triggers the cleaning.
+		cancelBeforeLast := round < len(fixed) || rng.Intn(3) > 0
+		waiting := make([]*c18Call, len(order))
+		arrive := func(i int) {
+			e := order[i]
+			// live entries are mostly deadline-less async calls (the witnesses; all of them in the hand-made orders);
+			// cancelled ones alternate sync / async
+			async := e.cancel && i%2 == 0 || !e.cancel && (round < len(fixed) || rng.Intn(5) > 0)
+			timeout := time.Duration(0)
+			if !async {
+				timeout = run.scn.LongTimeout
+			} else if !e.cancel && round >= len(fixed) && rng.Intn(6) == 0 {
+				timeout = run.scn.LongTimeout // async with a deadline
+			}
+			c := mk(async, e.pri, timeout, c18SrvEcho)
+			waiting[i] = c
+			launch(c)
+			if !c.async {
+				time.Sleep(2 * time.Millisecond) // a sync call is issued from its own goroutine: give it time to enqueue, the order matters
+			}
+			consumed()
+		}
+		cancelThem := func() {
+			for i, e := range order {
+				if e.cancel {
+					waiting[i].doCancel()
+					run.count("limitheap_cancelled_in_queue", 1)
+				}
+			}
+			for i, e := range order {
+				if e.cancel {
+					<-c18After(waiting[i], 200*time.Millisecond)
+				}
+			}
+			time.Sleep(time.Millisecond)
+		}
+		last := len(order) - 1
+		for i := 0; i < last; i++ {
+			arrive(i)
+		}
+		if cancelBeforeLast {
+			cancelThem()
+			arrive(last)
+		} else {
+			arrive(last)
+			cancelThem()
+			launch(mk(false, uint64(rng.Intn(10)), 300*time.Millisecond, c18SrvEcho))
+			consumed()
+		}
+		run.gateOpen.Store(true)
+		run.count("limitheap_rounds", 1)
+		if run.tickDrain(300) {
+			run.count("limitheap_rounds_drained", 1)
+		}
+		wg.Wait()
 	}
 }
